@@ -67,6 +67,10 @@ pub struct RunCfg {
     /// Clients 0..good_clients obey the protocol; the rest are rogues (if `rogue`).
     pub good_clients: usize,
     pub shadow_events: bool,
+    /// Stale Disconnect / Shadow events may also be emitted after the slot was
+    /// given to a later connection (the two open findings of C03 / C14); off in
+    /// most runs so that those runs are explored to their end.
+    pub stale_on_reused: bool,
     pub alternate_clean: bool,
     /// Some clients use MQTT 5 forms of packets (properties present).
     pub v5_packets: bool,
@@ -168,6 +172,7 @@ impl RunCfg {
             will_once: false,
             good_clients: n_clients,
             shadow_events: false,
+            stale_on_reused: true,
             alternate_clean: false,
             v5_packets: false,
         };
@@ -275,6 +280,7 @@ impl RunCfg {
                 cfg.n_clients = ch.range(2, 6) as usize;
                 cfg.good_clients = ch.range(1, 2) as usize;
                 cfg.shadow_events = ch.coin(1, 4);
+                cfg.stale_on_reused = ch.coin(1, 8);
                 cfg.max_connections = cfg.n_clients + ch.pick(3) as usize;
                 cfg.w_drop = ch.range(0, 3);
             }
@@ -285,6 +291,7 @@ impl RunCfg {
                 cfg.shared = ch.coin(1, 2);
                 cfg.shadow_events = ch.coin(1, 6);
                 cfg.stale_events = ch.coin(2, 3);
+                cfg.stale_on_reused = ch.coin(1, 8);
                 cfg.max_connections = cfg.n_clients + 2;
                 cfg.w_drop = ch.range(1, 3);
                 cfg.w_disc_pkt = ch.range(0, 2);
@@ -2144,7 +2151,7 @@ impl World {
             // or superseded by a takeover) ends at some arbitrary later moment:
             // unless the link has noticed the router's drop it sends Disconnect
             for l in self.abandoned.iter() {
-                if self.links[*l].state == LState::Up {
+                if self.links[*l].state == LState::Up && (self.cfg.stale_on_reused || !self.slot_reused(*l)) {
                     v.push((Act::Drop(*l), 3));
                 }
             }
@@ -2170,7 +2177,7 @@ impl World {
                                 v.push((Act::Ready(l), 2));
                             }
                         }
-                        if self.cfg.shadow_events {
+                        if self.cfg.shadow_events && (self.cfg.stale_on_reused || !self.slot_reused(l)) {
                             v.push((Act::Shadow(l), 1));
                         }
                     }
@@ -2180,6 +2187,17 @@ impl World {
         }
         v.retain(|(_, w)| *w > 0);
         v
+    }
+
+    /// The slot of link `l`'s connection is occupied by a later connection, or
+    /// may be by the time the router gets to an event emitted now (a Connect
+    /// is waiting in the router's channel).
+    fn slot_reused(&self, l: usize) -> bool {
+        self.links[l]
+            .conn_id
+            .and_then(|id| self.spec.occupant(id))
+            .map_or(false, |c| self.spec.conns[c].link != l)
+            || self.links.iter().any(|k| k.state == LState::Pending)
     }
 
     fn step_non_router(&mut self) -> bool {
